@@ -6,6 +6,7 @@ package hc18
 import (
 	"context"
 	"fmt"
+	staticchecker "github.com/attestantio/dirk/services/checker/static"
 	"regexp"
 	"strings"
 
@@ -218,6 +219,52 @@ func ListingWhileCreating() {
 	}
 	for full := range w.keys {
 		vsym.Assert("L3-listed-iff-requested-matching-and-permitted", listed[full] == w.expected(full, req))
+	}
+}
+
+// ListingWithStaticChecker: the same statement with the real static permissions checker configured
+// with per-account permissions (each account permitted or not, every combination): one refused
+// account must not hide the permitted ones, within a call or in the next one.
+func ListingWithStaticChecker() {
+	vsym.ForbidCrash()
+	ctx := context.Background()
+	w := newWorld(ctx)
+	var perms []*checker.Permissions
+	for wi, wname := range walletNames {
+		for _, aname := range accountNames[wi] {
+			w.create(ctx, wname, aname)
+			allowed := vsym.Choose("permitted_"+wname+"_"+aname, 2) == 1
+			w.perm[wname+"/"+aname] = allowed
+			if allowed {
+				perms = append(perms, &checker.Permissions{Path: wname + "/" + regexp.QuoteMeta(aname), Operations: []string{"Access account"}})
+			}
+		}
+	}
+	fetcher, err := memfetcher.New(ctx, memfetcher.WithStores([]e2wtypes.Store{w.store}), memfetcher.WithEncryptor(w.enc))
+	hc.Must(err)
+	ck, err := staticchecker.New(ctx, staticchecker.WithPermissions(map[string][]*checker.Permissions{"client1": perms, "client2": {{Path: "Nothing", Operations: []string{"All"}}}}))
+	hc.Must(err)
+	rs := hc.NewRules(ctx, vsym.TempDir("A"))
+	ls, err := standardlister.New(ctx, standardlister.WithChecker(ck), standardlister.WithFetcher(fetcher), standardlister.WithRuler(hc.NewRuler(ctx, rs)))
+	hc.Must(err)
+	h, err := listerhandler.New(ctx, listerhandler.WithLister(ls))
+	hc.Must(err)
+	cctx := context.WithValue(ctx, &interceptors.ClientName{}, "client1")
+	req := []string{[]string{"Wallet1", "Wallet1/acc.*", "Other"}[vsym.Choose("path", 3)]}
+	for round := 0; round < 2; round++ {
+		res, err := h.ListAccounts(cctx, &pb.ListAccountsRequest{Paths: req})
+		vsym.Assert("L0-listing-answers", err == nil && res != nil)
+		if err != nil || res == nil {
+			return
+		}
+		vsym.Reach("listed-with-the-static-checker")
+		listed := map[string]bool{}
+		for _, a := range res.GetDistributedAccounts() {
+			listed[a.GetName()] = true
+		}
+		for full := range w.keys {
+			vsym.Assert("L3-listed-iff-requested-matching-and-permitted", listed[full] == w.expected(full, req))
+		}
 	}
 }
 
